@@ -253,36 +253,65 @@ def run(ctx):
                            "err": res.describe()})
             meta.append(dict(m0, what="potential", max_dev=max(o["dev"] for o in out) if ok else None))
     qn_relations(ctx, rng, events, meta)
+    # the QuasiNeutralitySolver pipeline itself (modes -> per-mode solve -> inverse transform) on a density with content in every mode,
+    # a non-zero flux-surface average included, on every process grid: the potential of every grid is that of the serial run (which
+    # the relation 'operator-is-the-stated-equation' above pins to the stated equation), and it is real
+    from harness.checks.c05 import qn_job
+    qn_npts = [8, 8, 6]
+    ref = None
+    for g in ([1, 1], [2, 1], [1, 2], [2, 2], [4, 1]):
+        n = int(np.prod(g))
+        out = [[] for _ in range(n)]
+        rs = MPI.run(n, qn_job, policy="random", seed=rng.randint(0, 999), args=(g, qn_npts, 5, out))
+        full = {}
+        if rs.ok:
+            for o in out:
+                for chi, st, en, blk in o:
+                    A = full.setdefault(chi, np.zeros([qn_npts[0], qn_npts[2], qn_npts[1]], dtype=complex))
+                    A[st[0]:en[0], st[1]:en[1], st[2]:en[2]] = blk
+        if g == [1, 1]:
+            ref = full
+        for chi in (0, 1):
+            ok = bool(rs.ok and ref and chi in full and chi in ref)
+            dev = imag = -1.0
+            if ok:
+                sc = float(np.max(np.abs(ref[chi]))) or 1.0
+                dev = float(np.max(np.abs(full[chi] - ref[chi]))) / sc
+                imag = float(np.max(np.abs(full[chi].imag))) / sc
+            events.append({"k": "potential", "ok": ok, "match": ok and dev <= 1e-11, "real": ok and imag <= 1e-11, "err": rs.describe()[:300]})
+            meta.append({"nth": qn_npts[1], "m0": "all", "trig": "random density", "coefficients": "quasi-neutrality, chi=%d" % chi, "nprocs": g,
+                         "what": "QuasiNeutralitySolver pipeline vs serial run", "max_dev": dev})
     # equilibrium through the real driver (eps = 0)
     work = tempfile.mkdtemp(prefix="c15_")
     try:
         cfile = scenarios.write_constants(os.path.join(work, "c.json"), eps=0.0, npts=[6, 8, 8, 8], iotaVal=0.8)
-        job = {"work": os.path.join(work, "w"), "cfile": cfile, "S": 5, "nranks": 2, "stops": [scenarios.CONSTANTS["dt"]], "folder": "F"}
-        pr = subprocess.run([sys.executable, "-m", "harness.drv18"], input=json.dumps(job), capture_output=True, text=True, cwd=VERIF,
-                            env=dict(os.environ, PYTHONHASHSEED="0"), timeout=1800)
-        if pr.returncode != 0:
-            raise Machinery("driver subprocess failed: " + pr.stderr[-1500:])
-        o = json.loads(pr.stdout)
-        from harness import h5emu
-        ok = bool(o and o[-1]["ok"])
-        fp, pz = False, False
-        dev = pmax = None
-        if ok:
-            F = os.path.join(work, "w", "F")
-            with h5emu._real_File(os.path.join(F, "grid_000000.h5"), "r") as f0, h5emu._real_File(os.path.join(F, "grid_%06d.h5" % scenarios.CONSTANTS["dt"]), "r") as f1:
-                a, b = f0["dset"][...], f1["dset"][...]
-                dev = float(np.max(np.abs(a - b)) / np.max(np.abs(a)))
-                fp = dev <= 1e-11
-            # at t = 0 the distribution IS the equilibrium: density and potential are exactly zero (identical table rows are
-            # subtracted); after the step it is the equilibrium up to rounding of the advections, so the potential is ~1e-16
-            with h5emu._real_File(os.path.join(F, "phi_000000.h5"), "r") as f:
-                p0 = float(np.max(np.abs(f["dset"][...])))
-            with h5emu._real_File(os.path.join(F, "phi_%06d.h5" % scenarios.CONSTANTS["dt"]), "r") as f:
-                p1 = float(np.max(np.abs(f["dset"][...])))
-            pmax = [p0, p1]
-            pz = p0 == 0.0 and p1 <= 1e-12
-        events.append({"k": "equilibrium", "ok": ok, "rho_zero": pz, "phi_zero": pz, "fixed_point": fp, "err": o[-1]["fault"][:300] if o else "no run"})
-        meta.append({"what": "equilibrium through the real driver", "rel_change_of_f": dev, "max_abs_phi": pmax})
+        for nranks in (2, 4):          # 4 ranks: a 2x2 grid, radius AND z distributed
+            job = {"work": os.path.join(work, "w%d" % nranks), "cfile": cfile, "S": 5, "nranks": nranks, "stops": [scenarios.CONSTANTS["dt"]], "folder": "F"}
+            pr = subprocess.run([sys.executable, "-m", "harness.drv18"], input=json.dumps(job), capture_output=True, text=True, cwd=VERIF,
+                                env=dict(os.environ, PYTHONHASHSEED="0"), timeout=1800)
+            if pr.returncode != 0:
+                raise Machinery("driver subprocess failed: " + pr.stderr[-1500:])
+            o = json.loads(pr.stdout)
+            from harness import h5emu
+            ok = bool(o and o[-1]["ok"])
+            fp, pz = False, False
+            dev = pmax = None
+            if ok:
+                F = os.path.join(work, "w%d" % nranks, "F")
+                with h5emu._real_File(os.path.join(F, "grid_000000.h5"), "r") as f0, h5emu._real_File(os.path.join(F, "grid_%06d.h5" % scenarios.CONSTANTS["dt"]), "r") as f1:
+                    a, b = f0["dset"][...], f1["dset"][...]
+                    dev = float(np.max(np.abs(a - b)) / np.max(np.abs(a)))
+                    fp = dev <= 1e-11
+                # at t = 0 the distribution IS the equilibrium: density and potential are exactly zero (identical table rows are
+                # subtracted); after the step it is the equilibrium up to rounding of the advections, so the potential is ~1e-16
+                with h5emu._real_File(os.path.join(F, "phi_000000.h5"), "r") as f:
+                    p0 = float(np.max(np.abs(f["dset"][...])))
+                with h5emu._real_File(os.path.join(F, "phi_%06d.h5" % scenarios.CONSTANTS["dt"]), "r") as f:
+                    p1 = float(np.max(np.abs(f["dset"][...])))
+                pmax = [p0, p1]
+                pz = p0 == 0.0 and p1 <= 1e-12
+            events.append({"k": "equilibrium", "ok": ok, "rho_zero": pz, "phi_zero": pz, "fixed_point": fp, "err": o[-1]["fault"][:300] if o else "no run"})
+            meta.append({"what": "equilibrium through the real driver on %d ranks" % nranks, "rel_change_of_f": dev, "max_abs_phi": pmax})
     finally:
         shutil.rmtree(work, ignore_errors=True)
     rej, _ = ctx.validate_trace("C15Trace", events, what="pipeline / relation / equilibrium events (%d)" % len(events))
